@@ -15,7 +15,7 @@ ANCHORS = [("qartod.py", "location_test"), ("qartod.py", "gross_range_test"), ("
 RULE = ("all 11 test functions in 19 parameter modes (spike x2 methods, attenuation x {std,range} x {whole,windowed,"
         "min_obs,min_period}, climatology x member shapes, valid_range x inclusivity / open bounds, ...) on series of "
         "length 0,1,2,3,4,5,8,17,64 (+257,1000 thorough) over dyadic values (and magnitudes to 1e150 in thorough) "
-        "with NaN / None / masked missing markers and list / ndarray / masked-array / Series carriers.  Every call is "
+        "with NaN / None / masked missing markers and list / ndarray / object-ndarray / masked-array / Series carriers.  Every call is "
         "judged by the boundary client AND by icontract postconditions on the real function: no exception, one flag "
         "per element in the input's shape, alphabet {1,2,3,4,9}, nothing masked, arguments unmodified; then re-run "
         "with all arrays read-only (write trap) and, at the end of a shuffled interleaving of all functions, "
@@ -41,6 +41,8 @@ def modes():
             a = np.array([0.0 if v is None else v for v in x], dtype=float)
             return np.ma.MaskedArray(np.where([v is None for v in x], np.nan, a) if len(x) else a,
                                      mask=[v is None for v in x] if len(x) else False)
+        if how == "object":
+            return np.array(list(x), dtype=object)  # what np.array makes of a list holding None, built by the caller
         if how == "series":
             return pd.Series(gen.arr(x))
         if how == "f32":
@@ -54,13 +56,16 @@ def modes():
         "week-z": [{"tspan": [1, 53], "period": "week", "vspan": [-2, 2], "zspan": [1, 4]}],
         "doy+quarter": [{"tspan": [1, 100], "period": "dayofyear", "vspan": [-2, 2]},
                         {"tspan": [1, 2], "period": "quarter", "vspan": [-1, 1], "fspan": [-3, 3], "zspan": [0, 2]}],
+        # (a member's suspect span may reach beyond its fail span: the fail span simply wins there)
+        "v-beyond-f": [{"tspan": ["2021-01-01", "2021-12-31"], "vspan": [-5, 5], "fspan": [-4, 4]},
+                       {"tspan": [1, 6], "period": "month", "vspan": [-2, 6], "fspan": [-4, 3], "zspan": [0, 3]}],
         "none": [],
     }
     M = {}
     M["gross_range"] = ("qartod.gross_range_test", lambda x, r, h: dict(inp=data(x, h), fail_span=r.choice([[-4, 4], (4, -4), [4, -4]]),
                                                                         suspect_span=r.choice([None, [-2, 2], [2, -2]])), True, True)
     M["valid_range"] = ("axds.valid_range_test", lambda x, r, h: dict(
-        inp=data(x, h) if h not in ("list-none", "list-nan") else gen.arr(x), valid_span=r.choice([(-2, 2), (None, 2), (-2, None)]),
+        inp=data(x, h) if h not in ("list-none", "list-nan", "object") else gen.arr(x), valid_span=r.choice([(-2, 2), (None, 2), (-2, None)]),
         start_inclusive=r.random() < 0.5, end_inclusive=r.random() < 0.5), True, True)
     M["valid_range-list+dtype"] = ("axds.valid_range_test", lambda x, r, h: dict(
         inp=gen.nanlist(x), valid_span=(-2, 2), dtype=np.float64), True, False)
@@ -142,13 +147,13 @@ def run(ctx) -> None:
     history = []  # (mode, kwargs, flags) to be re-issued at the end
     reps = ctx.pick(3, 6)
     plan = [(m, n, h, r) for m in names for n in lengths
-            for h in ("ndarray", "list-none", "list-nan", "masked", "series", "f32") for r in range(reps)]
+            for h in ("ndarray", "list-none", "list-nan", "masked", "series", "f32", "object") for r in range(reps)]
     rng.shuffle(plan)  # interleave all functions
     for idx, (mname, n, how, _r) in enumerate(plan):
         if not ctx.mine(idx):
             continue
         fname, build, pointwise, docs_missing = M[mname]
-        if how in ("list-none", "masked") and not docs_missing:
+        if how in ("list-none", "masked", "object") and not docs_missing:
             continue
         if n >= 257 and how != "ndarray":
             continue
